@@ -352,3 +352,10 @@ PROPS["C19"]["technique"] = "Lean 4 theorems over a hand-written model of the wh
 PROPS["C05"]["unproved"] = ["rs_decode_total (Reed-Solomon decoder: Levinson-Durbin / Chien / Bjorck-Pereyra index and divisor obligations; its debug assertions are algebraic identities of the recursion)"]
 PROPS["C05"]["explanation"] = PROPS["C05"]["explanation"].replace("The string decoder and the Reed-Solomon decoder are decided",
     "decode_str_total - the same for the string decoder: the ECI span starts recorded while decoding are sorted and inside the output (eci_spans_in_range), so eci::convert never slices out of range, and the regenerated per-byte conversion tables cover every byte. The Reed-Solomon decoder is decided")
+
+PROPS["C01"]["explanation"] += (" Data-level half, ASCII: ascii_roundtrip (DM/Props/C01.lean) - whenever the encoder model following the plan 'ASCII until the end' returns the data codewords"
+    " of a symbol, the data decoder model returns exactly the message and the codewords fill the symbol (digit pairs, upper shift, pad codeword and 253-state randomised pads"
+    " included), for every message and every symbol list. Both models are tied to the code by correspondence (encoder: real and injected plans; decoder: exhaustive-short and mutated streams).")
+PROPS["C01"]["unproved"] = ["encode_conformant for the other five modes: forall plans, decode_data (Encode.run plan input) = input (proved for ASCII-only plans: ascii_roundtrip)"]
+PROPS["C01"]["level_text"] = ("Partial proof: the symbol-level half of the round trip is a theorem for all sizes and contents, the data-level half is a theorem for ASCII encodation"
+    " (all messages, all lists, all padding amounts); the data-level half for the other modes is exploration with a specification oracle.")
